@@ -105,10 +105,10 @@ Definition vstep (o : cobj) (op : vop) : cobj * val :=
              (o1, match r with Ok _ => VBool true
                              | Err e => if str_eqb e eSSE then VBool false else err e end)
       end
-  | VRotate => let '(o1, n) := size o in (o1, of_res of_ckeys (obj_rotate o1 n))
+  | VRotate => let '(o1, n) := size o in (o1, of_res of_ckeys (cobj_rotate o1 n))
   | VRotatePt =>
       let '(o1, n) := size o in
-      (o1, match obj_rotate o1 n with
+      (o1, match cobj_rotate o1 n with
            | Err e => err e
            | Ok l =>
                (fix go (l : list ckey) (acc : list val) : val :=
